@@ -89,17 +89,33 @@ package expand
 
 // The comparator of listEnviron.Get. Its preconditions are the values Get assigns to the captured variables
 // before creating the closure (the library calls it, so they are not re-checked at call sites: listed as assumed).
+// The list is sorted by the key "name=" (envKey: the pair up to and including its first '='), so the binary search
+// is correct only if the comparator orders a pair against the wanted name exactly as the sort orders the pair's key
+// against "name=". [agrees-with-sort-key] proves that for every pair of up to 4 bytes and every name of up to 3 bytes
+// (the byte-wise order of such strings is written out in /verif/trusted/strings.spec: lex4; longer strings are
+// outside this lemma: bounded). The case-insensitive variant (Windows) is not covered.
+//@ spec envKey(s string) string = ite(idxByteSpec(s, '=') < 0, "", ssub(s, 0, idxByteSpec(s, '=') + 1))
 //@ func listEnviron.Get$1
 //@ props C34
 //@ requires [captured-endpos] *endpos == len(name) + 1
 //@ requires [captured-eqpos] *eqpos == len(name)
+//@ requires [name-without-separator] all(k, 0, len(name), name[k] != '=')
+//@ assume [first-separator] -1 <= idxByteSpec(pair, '=') && idxByteSpec(pair, '=') < len(pair) && implies(idxByteSpec(pair, '=') >= 0, pair[idxByteSpec(pair, '=')] == '=') && all(k, 0, len(pair), implies(pair[k] == '=', 0 <= idxByteSpec(pair, '=') && idxByteSpec(pair, '=') <= k))
 //@ ensures [zero-means-long] implies(result == 0, len(pair) > len(name))
+//@ ensures [agrees-with-sort-key.bounded-4-bytes] implies(!(*l).caseInsensitive && len(pair) <= 4 && len(name) <= 3 && idxByteSpec(pair, '=') >= 1, sameSign(result, lex4(envKey(pair), scat(name, "="))))
+
+// The comparator of the sort in listEnviron_: the keys are compared, and nothing else.
+//@ func listEnviron_$1
+//@ props C34
+//@ ensures [compares-keys] implies(!(*env).caseInsensitive, result == strcmpSpec(envKey(a), envKey(b)))
 
 // Get never panics: a hit of the binary search is an element "name=value", long enough to cut the value off.
 //@ func listEnviron.Get
+//@ noauto
 //@ props C34
 //@ assume [from-comparator.zero-means-long] forall(p, string, implies(searchHit(p, name), len(p) > len(name)))
 //@ ensures [unset-or-exported-string] !result.Set || (result.Exported && result.Kind == String)
+//@ ensures [separator-in-name-is-unset] implies(any(k, 0, len(name), name[k] == '='), !result.Set)
 
 //@ func funcEnviron.Get
 //@ props C34
@@ -113,6 +129,8 @@ package expand
 //@ func listEnviron.compare
 //@ props C34
 //@ ensures [zero-keeps-emptiness] implies(result == 0, (len(a) == 0) == (len(b) == 0))
+//@ ensures [byte-order] implies(!l.caseInsensitive, result == strcmpSpec(a, b))
+//@ ensures [byte-order-short] implies(!l.caseInsensitive && len(a) <= 4 && len(b) <= 4, result == lex4(a, b))
 //@ pure
 
 // Representation invariant of listEnviron, established by its only constructor: every surviving element is a
@@ -121,6 +139,7 @@ package expand
 // the name only if the sort before it kept equal names in their original order. stableSortedObj (ghost, see
 // /verif/trusted/slices.spec) names the backing array last sorted by a stable sort.
 //@ func listEnviron_
+//@ noauto
 //@ props C34
 //@ ensures [survivors-valid] all(j, 0, len(result.(listEnviron).pairs), validPair(result.(listEnviron).pairs[j]))
 //@ ensures [last-wins-needs-stable-order] stableSortedObj == objof(result.(listEnviron).pairs) || len(result.(listEnviron).pairs) == 0
@@ -131,6 +150,7 @@ package expand
 // Each relies on the representation invariant (it is reached through the Environ interface, so the invariant is
 // assumed here and established by listEnviron_ above): then the documented panic is unreachable.
 //@ func listEnviron.Each
+//@ noauto
 //@ props C34
 //@ requires [rep] all(j, 0, len(l.pairs), validPair(l.pairs[j]))
 //@ stable l.pairs[*]
@@ -139,6 +159,7 @@ package expand
 
 // ---- C28: the count of consumed arguments returned by Format is within the argument list ----
 //@ func formatInto
+//@ noauto
 //@ props C28
 //@ nosafety
 //@ returns (consumed, err)
@@ -146,21 +167,25 @@ package expand
 //@ loop 1 invariant [args-shrink] len(args) <= initialArgs && initialArgs == len(old(args))
 
 //@ func Format
+//@ noauto
 //@ props C28
 //@ returns (s, consumed, err)
 //@ ensures [consumed-in-range] 0 <= consumed && consumed <= len(args)
 
 // ---- C33 call sites / C28 in expand ----
 //@ func Config.assignElem
+//@ noauto
 //@ props C28 C33
 //@ requires [variable-invariant] wfArr(vr.List, vr.Indexes)
 
 //@ func Variable.indexedVal
+//@ noauto
 //@ props C28 C33
 //@ requires [variable-invariant] wfArr(v.List, v.Indexes)
 //@ requires [nonneg] i >= 0
 
 //@ func Variable.indexedKeys
+//@ noauto
 //@ props C28 C33
 //@ requires [variable-invariant] wfArr(v.List, v.Indexes)
 
@@ -178,6 +203,7 @@ package expand
 
 // Resolve follows name references through the environment: what it returns is v itself or came from env.Get.
 //@ func Variable.Resolve
+//@ noauto
 //@ props C28 C33
 //@ returns (n, out)
 //@ requires [variable-invariant] wfArr(v.List, v.Indexes) && v.Kind < KeepValue
@@ -187,6 +213,7 @@ package expand
 //@ pure
 
 //@ func Config.varInd
+//@ noauto
 //@ props C28 C33
 //@ requires [variable-invariant] wfArr(vr.List, vr.Indexes)
 
@@ -271,6 +298,7 @@ package expand
 //@ pure
 
 //@ func Config.sliceElems
+//@ noauto
 //@ props C33 C28
 //@ requires [variable-invariant] wfArr(elems, indexes)
 //@ requires [ast] pe != nil
@@ -296,6 +324,7 @@ package expand
 //@ pure
 
 //@ func ReadFields
+//@ noauto
 //@ props C23
 //@ requires [count] n == -1 || n >= 1
 //@ loop 1 invariant [separate-buffers] !sameobj(fpos, runes) && fresh(runes)
@@ -309,3 +338,11 @@ package expand
 //@ loop 4 invariant [all-closed] all(k, 0, len(fpos), 0 <= fpos[k].start && fpos[k].start <= fpos[k].end && fpos[k].end <= len(runes))
 //@ loop 4 invariant [disjoint] all(k, 1, len(fpos), fpos[k-1].end <= fpos[k].start)
 //@ ensures [at-most-n] implies(n >= 1, len(result) <= n)
+
+// Fields ranges over an iterator function (FieldsSeq), which the generator does not model: its contract is assumed.
+// Every field comes from one of the words.
+//@ func Fields
+//@ props C28
+//@ trusted
+//@ returns (fields, err)
+//@ ensures [no-words-no-fields] implies(len(words) == 0, len(fields) == 0)
